@@ -11,7 +11,8 @@ checks, na = [], []
 for p in props:
     pid = p["id"]
     path = os.path.join(ROOT, "pbt", "props", pid.lower() + ".py")
-    if not os.path.exists(path) or pid in NA_REASONS:
+    CLAIMED = json.load(open(os.path.join(ROOT, "tools", "claimed.json")))
+    if not os.path.exists(path) or pid in NA_REASONS or pid not in CLAIMED:
         na.append({"property_id": pid, "reason": NA_REASONS.get(pid, "no check registered yet in this revision of /verif (design in DESIGN.md sec. 2)")})
         continue
     mod = importlib.import_module("pbt.props." + pid.lower())
